@@ -709,6 +709,8 @@ class Interp:
                 self.assign(s.target, it.ek.wrap([e]))
                 if isinstance(it.ek, type(Ref)):
                     self.assume(e != core.null())
+                if lspec.body_hook:
+                    lspec.body_hook(self)
                 try:
                     self.exec_block(s.body)
                 except BreakSig:
@@ -716,6 +718,8 @@ class Interp:
                 except ContinueSig:
                     pass
                 env['__visited%d' % ordn] = VSet(it.ek, z3.Store(vis, e, True))
+                if lspec.iter_hook:
+                    lspec.iter_hook(self)
                 self.check_inv(lspec, tag, 'preserved')
                 raise PathKill()
             self.assume(z3.ForAll([x], z3.Implies(member(x), z3.Select(vis, x))))
@@ -1052,7 +1056,21 @@ class Interp:
         return VTuple(items)
 
     def e_List(self, n):
+        # [a, b, *bag]: a list display that splices in a multiset-typed table is itself viewed as a multiset (order abstracted, as for
+        # the table): the members counted once more each
+        stars = [e for e in n.elts if isinstance(e, ast.Starred)]
+        if stars:
+            vals = [(e, self.eval(e.value if isinstance(e, ast.Starred) else e)) for e in n.elts]
+            bags = [v for e, v in vals if isinstance(e, ast.Starred) and isinstance(unopt(self, v), VBag)]
+            if bags and all(isinstance(e, ast.Starred) or isinstance(unopt(self, v), VRef) for e, v in vals) and len(bags) == len(stars) == 1:
+                return self.bag_plus(unopt(self, bags[0]), [unopt(self, v) for e, v in vals if not isinstance(e, ast.Starred)])
         return VCList(self.e_Tuple(n).items)
+
+    def bag_plus(self, bag, refs):
+        arr = bag.arr
+        for r in refs:
+            arr = z3.Store(arr, r.t, z3.Select(arr, r.t) + 1)
+        return VBag(bag.ek, arr)
 
     def e_Set(self, n):
         return VTuple(self.e_Tuple(n).items)
@@ -1644,6 +1662,13 @@ class Interp:
             o = args[0]
             if isinstance(o, VGen):
                 o = VTuple(o.items)
+            o = unopt(self, o)
+            if isinstance(o, VBag) and all(isinstance(unopt(self, x), VRef) for x in recv.items) and \
+                    isinstance(getattr(n, 'func', None), ast.Attribute) and isinstance(n.func.value, ast.Name):
+                # concrete list of references extended by a multiset-typed table: from here on the local is that multiset plus the
+                # references (order abstracted, as for the table itself)
+                self.assign(n.func.value, self.bag_plus(o, [unopt(self, x) for x in recv.items]))
+                return NONE
             if not isinstance(o, (VTuple, VCList)):
                 raise Unsupported('extend concrete list with %r' % (o,))
             recv.items.extend(o.items)
